@@ -43,6 +43,7 @@ const (
 	knownRaceKey   = "release-race-stale-removeVersion"
 	numKeys        = 5
 	rollupInterval = timeutil.Interval(300000)
+	hourInterval   = timeutil.Interval(3600000)
 	sourceInterval = timeutil.Interval(10000)
 	mergerName     = "c02-sorted-concat"
 )
@@ -371,7 +372,15 @@ type kase struct {
 	fam       kv.Family
 	fv        version.FamilyVersion
 	rollupOn  bool
+	nTargets  int // number of rollup target intervals of the source store (0, 1: [5m], 2: [5m, 1h])
 	threshold int
+
+	// rollup target stores that are open (interval in minutes -> store name); the harness' own record of
+	// which (table, interval) rollups are owed: every mark it ever saw minus those a rollup really did
+	targetOpen map[int]string
+	seenMarks  map[[2]int64]bool
+	doneMarks  map[[2]int64]bool
+	toldMarks  map[[2]int64]bool // owed rollups already reported as forgotten (their tables are still watched)
 
 	readers  map[int]*thr
 	closers  map[int]*thr // second Close() callers on a shared snapshot
@@ -408,7 +417,13 @@ func (k *kase) failf(key string, ver int64, format string, a ...interface{}) {
 	k.fails = append(k.fails, fail{key: key, desc: fmt.Sprintf(format, a...), ver: ver})
 }
 
-func (k *kase) open(threshold int, rollupOn bool) error {
+func (k *kase) open(threshold int, nTargets int) error {
+	rollupOn := nTargets > 0
+	k.nTargets = nTargets
+	k.targetOpen = map[int]string{}
+	k.seenMarks = map[[2]int64]bool{}
+	k.doneMarks = map[[2]int64]bool{}
+	k.toldMarks = map[[2]int64]bool{}
 	dir, err := os.MkdirTemp("", "lvh-c02-*")
 	if err != nil {
 		return err
@@ -421,6 +436,9 @@ func (k *kase) open(threshold int, rollupOn bool) error {
 	opt.Source = sourceInterval
 	if rollupOn {
 		opt.Rollup = []timeutil.Interval{rollupInterval}
+		if nTargets > 1 {
+			opt.Rollup = append(opt.Rollup, hourInterval)
+		}
 	}
 	st, err := kv.GetStoreManager().CreateStore(k.storeName, opt)
 	if err != nil {
@@ -445,6 +463,9 @@ func (k *kase) open(threshold int, rollupOn bool) error {
 func (k *kase) close() {
 	if k.broken == "" && k.store != nil {
 		_ = kv.GetStoreManager().CloseStore(k.storeName)
+		for _, name := range k.targetOpen {
+			_ = kv.GetStoreManager().CloseStore(name)
+		}
 	}
 	if k.dir != "" {
 		os.RemoveAll(k.dir)
@@ -541,9 +562,57 @@ func (k *kase) state() string {
 	if kv.VerifC02Compacting(k.fam) {
 		cmp = 1
 	}
-	return fmt.Sprintf("cur=%d act=%s rv=%s disk=%s pend=%s cache=%s lock=%d cmp=%d",
+	var roll []string
+	for _, m := range marksOf(cur) {
+		roll = append(roll, fmt.Sprintf("%d:%d", m[0], m[1]))
+	}
+	return fmt.Sprintf("cur=%d act=%s rv=%s disk=%s pend=%s cache=%s lock=%d cmp=%d roll=%s",
 		cur.ID(), showVers(act), showVers(rv), joinI64(k.diskFiles()), joinI64(kv.VerifC02Pending(k.fam)),
-		strings.Join(cache, ","), lock, cmp)
+		strings.Join(cache, ","), lock, cmp, strings.Join(roll, ","))
+}
+
+// marksOf: the rollup marks of a version as sorted (table, target interval in minutes) pairs.
+func marksOf(v version.Version) [][2]int64 {
+	var ms [][2]int64
+	for f, ivs := range v.GetRollupFiles() {
+		for _, iv := range ivs {
+			ms = append(ms, [2]int64{f.Int64(), int64(iv) / 60000})
+		}
+	}
+	sort.Slice(ms, func(i, j int) bool {
+		if ms[i][0] != ms[j][0] {
+			return ms[i][0] < ms[j][0]
+		}
+		return ms[i][1] < ms[j][1]
+	})
+	return ms
+}
+
+// openTarget opens the target store of a rollup interval (5 or 60 minutes) the way tsdb lays the
+// segments out next to the source segment: <base>/segment/month/201907 resp. <base>/segment/year/2019.
+// Harness-only action: the model learns about it through the `rollupjob` op's list of open targets.
+func (k *kase) openTarget(iv int) {
+	if _, ok := k.targetOpen[iv]; ok || k.broken != "" {
+		return
+	}
+	name := filepath.Join(k.dir, "segment", "month", "201907")
+	if iv == 60 {
+		name = filepath.Join(k.dir, "segment", "year", "2019")
+	}
+	if _, err := kv.GetStoreManager().CreateStore(name, kv.DefaultStoreOption()); err != nil {
+		k.broken = "cannot open rollup target store: " + err.Error()
+		return
+	}
+	k.targetOpen[iv] = name
+	k.branch(fmt.Sprintf("rollup-target-opened:%dm", iv))
+}
+
+func pairsStr(ps [][2]int64) string {
+	var parts []string
+	for _, p := range ps {
+		parts = append(parts, fmt.Sprintf("%d:%dm", p[0], p[1]))
+	}
+	return strings.Join(parts, ",")
 }
 
 // versionTokens: the tokens a read of key through version v must return (from the harness' own
@@ -575,7 +644,6 @@ func eqU32(a, b []uint32) bool {
 // oracle: evaluated on the implementation after every step.
 func (k *kase) oracle() {
 	cur, act := version.VerifC02State(k.fv)
-	_ = cur
 	activeIDs := map[int64]bool{}
 	for _, v := range act {
 		activeIDs[v.ID()] = true
@@ -583,6 +651,42 @@ func (k *kase) oracle() {
 	disk := map[int64]bool{}
 	for _, f := range k.diskFiles() {
 		disk[f] = true
+	}
+	// rollups that are owed: every (table, interval) mark ever seen that no rollup has done yet must
+	// still be marked in the current version, and its table must be in the directory
+	marked := map[[2]int64]bool{}
+	for _, m := range marksOf(cur) {
+		marked[m] = true
+		k.seenMarks[m] = true
+	}
+	var forgotten, deleted [][2]int64
+	for m := range k.seenMarks {
+		if k.doneMarks[m] {
+			continue
+		}
+		if !marked[m] && !k.toldMarks[m] {
+			forgotten = append(forgotten, m)
+		}
+		if !disk[m[0]] {
+			deleted = append(deleted, m)
+		}
+	}
+	less := func(ps [][2]int64) func(i, j int) bool {
+		return func(i, j int) bool { return ps[i][0] < ps[j][0] || (ps[i][0] == ps[j][0] && ps[i][1] < ps[j][1]) }
+	}
+	sort.Slice(forgotten, less(forgotten))
+	sort.Slice(deleted, less(deleted))
+	if len(forgotten) > 0 {
+		k.failf("pending-rollup-forgotten", -1, "the rollups [%s] (table:target interval) were never done but the current version %d no longer marks them", pairsStr(forgotten), cur.ID())
+		for _, m := range forgotten {
+			k.toldMarks[m] = true // reported once; the table stays watched
+		}
+	}
+	if len(deleted) > 0 {
+		k.failf("pending-rollup-file-deleted", -1, "tables of the pending rollups [%s] (table:target interval; never rolled up into that target) are gone from the directory", pairsStr(deleted))
+		for _, m := range deleted {
+			k.doneMarks[m] = true // reported once
+		}
 	}
 	ents := k.cacheEntries()
 	for _, t := range k.readers {
@@ -649,6 +753,11 @@ func (k *kase) deleteMonitor(n int64) {
 	for f := range cur.GetRollupFiles() {
 		if f.Int64() == n {
 			k.failf("delete-rollup-file", -1, "table %d is being deleted while the current version still marks it for rollup", n)
+		}
+	}
+	for m := range k.seenMarks {
+		if m[0] == n && !k.doneMarks[m] {
+			k.failf("delete-pending-rollup-file", -1, "table %d is being deleted while its rollup into the %dm target is still owed (never done)", n, m[1])
 		}
 	}
 }
@@ -896,6 +1005,10 @@ func (k *kase) body(t *thr) func() {
 	case "delobs":
 		return func() { kv.VerifC02DeleteObsoleteFiles(k.fam) }
 	case "rollup":
+		// stands for "the 5m target merged these tables": those rollups are done
+		for _, f := range t.rollFiles {
+			k.doneMarks[[2]int64{f, 5}] = true
+		}
 		return func() {
 			if !kv.VerifC02CommitRollupDone(k.fam, t.rollFiles, rollupInterval) {
 				t.err = fmt.Errorf("commit failed")
@@ -1218,16 +1331,19 @@ func (k *kase) exec(op string) string {
 		res = "at=" + strings.Join(parts, "+")
 		k.nonTrivial()
 	case "rollupjob":
-		// the real family.rollup() of the source family; its target store does not exist, so every
-		// target is skipped: nothing may be committed as rolled up, the deferred deleteObsoleteFiles runs
-		cur0, act0 := version.VerifC02State(k.fv)
-		marks0 := map[int64]bool{}
-		for f := range cur0.GetRollupFiles() {
-			marks0[f.Int64()] = true
+		// the real family.rollup() of the source family, unscheduled on lindb's own goroutine. The
+		// targets whose store is open (ws[1:], minutes) are rolled up; every other target is skipped:
+		// only the marks of the targets that were really rolled up may be committed as done; the
+		// deferred deleteObsoleteFiles runs
+		okIv := map[int64]bool{}
+		for _, w := range ws[1:] {
+			okIv[int64(num(w))] = true
 		}
+		cur0, act0 := version.VerifC02State(k.fv)
+		marks0 := marksOf(cur0)
 		need := map[int64]bool{}
-		for f := range marks0 {
-			need[f] = true
+		for _, m := range marks0 {
+			need[m[0]] = true
 		}
 		for _, v := range act0 {
 			for _, fm := range v.GetAllFiles() {
@@ -1246,37 +1362,62 @@ func (k *kase) exec(op string) string {
 			res = "timeout"
 			break
 		}
-		cur1, _ := version.VerifC02State(k.fv)
-		marks1 := map[int64]bool{}
-		for f := range cur1.GetRollupFiles() {
-			marks1[f.Int64()] = true
+		cur1, act1 := version.VerifC02State(k.fv)
+		marks1 := map[[2]int64]bool{}
+		for _, m := range marksOf(cur1) {
+			marks1[m] = true
 		}
-		var lost []int64
-		for f := range marks0 {
-			if !marks1[f] {
-				lost = append(lost, f)
+		var lost [][2]int64
+		for _, m := range marks0 {
+			switch {
+			case !marks1[m] && !okIv[m[1]]:
+				lost = append(lost, m)
+			case !marks1[m]:
+				k.doneMarks[m] = true // rolled up into its (open) target
+				k.branch("rollup-done-for-target")
+			default:
+				k.branch("rollup-still-pending")
 			}
 		}
-		sort.Slice(lost, func(i, j int) bool { return lost[i] < lost[j] })
 		if len(lost) > 0 {
-			k.failf("pending-rollup-forgotten", -1, "a rollup job whose target store does not exist removed the rollup marks of tables [%s] (nothing was rolled up)", joinI64(lost))
+			k.failf("pending-rollup-forgotten", -1, "a rollup job removed the rollup marks [%s] (table:target interval) although the store of that target is not open, i.e. nothing was rolled up into it", pairsStr(lost))
+			for _, m := range lost {
+				k.toldMarks[m] = true // reported here; the table stays watched by the state oracle
+			}
 		}
 		now := map[int64]bool{}
 		for _, f := range k.diskFiles() {
 			now[f] = true
 		}
+		stillNeed := map[int64]bool{}
+		for _, v := range act1 {
+			for _, fm := range v.GetAllFiles() {
+				stillNeed[fm.GetFileNumber().Int64()] = true
+			}
+		}
+		for _, p := range kv.VerifC02Pending(k.fam) {
+			stillNeed[p] = true
+		}
+		for _, m := range marks0 {
+			if !okIv[m[1]] {
+				stillNeed[m[0]] = true
+			}
+		}
 		var gone []int64
 		for f := range need {
-			if onDisk[f] && !now[f] {
+			if onDisk[f] && !now[f] && stillNeed[f] {
 				gone = append(gone, f)
 			}
 		}
 		sort.Slice(gone, func(i, j int) bool { return gone[i] < gone[j] })
 		if len(gone) > 0 {
-			k.failf("pending-rollup-file-deleted", -1, "the rollup job's cleanup deleted tables [%s] that an active version / pending rollup mark / pending output still needed", joinI64(gone))
+			k.failf("rollup-job-cleanup-deleted-needed-file", -1, "the rollup job's cleanup deleted tables [%s] that an active version / a rollup of a skipped target / a pending output still needs", joinI64(gone))
 		}
-		// the job has a slot in the model's job table (it is a deleteObsoleteFiles job there)
-		k.jobs = append(k.jobs, &thr{name: fmt.Sprintf("j%d", len(k.jobs)), kind: "delobs", done: true, at: "done"})
+		if len(okIv) > 0 {
+			k.nonTrivial()
+		}
+		// the job has a slot in the model's job table
+		k.jobs = append(k.jobs, &thr{name: fmt.Sprintf("j%d", len(k.jobs)), kind: "rollupjob", done: true, at: "done"})
 		res = "ok"
 	case "cleanup":
 		res = "ok"
@@ -1558,17 +1699,13 @@ func (k *kase) flushFails() {
 
 // ---------------------------------------------------------------- cases
 
-func (k *kase) begin(i int, threshold int, rollupOn bool) error {
-	if err := k.open(threshold, rollupOn); err != nil {
+func (k *kase) begin(i int, threshold int, nTargets int) error {
+	if err := k.open(threshold, nTargets); err != nil {
 		return err
 	}
 	k.s.locked = func() bool { return kv.VerifC02CommitLocked(k.store) }
 	cur, _ := version.VerifC02State(k.fv)
-	ro := 0
-	if rollupOn {
-		ro = 1
-	}
-	k.emit(fmt.Sprintf("init %d %d %d %d", cur.ID(), kv.VerifC02NextFileNumber(k.store), threshold, ro), "ok")
+	k.emit(fmt.Sprintf("init %d %d %d %d", cur.ID(), kv.VerifC02NextFileNumber(k.store), threshold, nTargets), "ok")
 	return nil
 }
 
@@ -1625,7 +1762,8 @@ const (
 	// appended after the older directed blocks (their case numbers stay what they were)
 	nDirect3C = 6 // three committers (flush, compaction, rollup-done): one inside CommitFamilyEditLog, two blocked on the mutex
 	nDirectOF = 4 // a second family of the store flushes / compacts / reads between this family's park points
-	nDirectX  = nDirect3C + nDirectOF
+	nDirectR2 = 6 // two rollup targets, one target store missing: rollup job, compaction + cleanup, retried job
+	nDirectX  = nDirect3C + nDirectOF + nDirectR2
 )
 
 func (k *kase) lastJob() string { return k.jobs[len(k.jobs)-1].name }
@@ -1856,10 +1994,94 @@ func (k *kase) directRollup(rng *rand.Rand, d int) {
 		k.exec("acquire 0")
 		k.nReaders = 1
 	}
-	k.exec("rollupjob")
+	k.exec(k.rollupJobOp())
 	k.exec("spawn delobs")
 	k.finish(k.lastJob())
-	k.exec("rollupjob")
+	k.exec(k.rollupJobOp())
+	k.drain(rng)
+}
+
+// rollupJobOp: the `rollupjob` op line: the real rollup job + the configured targets whose store is open.
+func (k *kase) rollupJobOp() string {
+	op := "rollupjob"
+	for _, iv := range []int{5, 60} {
+		if _, ok := k.targetOpen[iv]; ok && (iv == 5 && k.nTargets >= 1 || iv == 60 && k.nTargets >= 2) {
+			op += " " + strconv.Itoa(iv)
+		}
+	}
+	return op
+}
+
+// directRollup2: a source store with TWO rollup targets (5m, 1h) of which one target store is not open
+// when the rollup job runs: that target is skipped, its rollups stay owed. Level-0 compactions (which
+// merge the marked tables away), their cleanups and stand-alone cleanups follow; the tables of the owed
+// rollups must stay until the retried rollup job (its target now open) has read them.
+func (k *kase) directRollup2(rng *rand.Rand, d int) {
+	first, second := 5, 60
+	if d%2 == 1 {
+		first, second = 60, 5
+	}
+	compactAll := func() {
+		k.exec("spawn compact")
+		k.finish(k.lastJob())
+	}
+	switch d / 2 {
+	case 0:
+		// one target open: rollup job, compaction + cleanup, the retried job after the other target opened
+		k.openTarget(first)
+		k.setupFlushes(rng, 2)
+		k.exec(k.rollupJobOp())
+		compactAll()
+		k.exec("acquire 0")
+		k.nReaders = 1
+		for key := 0; key < numKeys; key++ {
+			k.exec(fmt.Sprintf("load 0 %d", key))
+		}
+		k.exec("spawn delobs")
+		k.finish(k.lastJob())
+		k.openTarget(second)
+		k.exec(k.rollupJobOp())
+		k.exec("spawn delobs")
+		k.finish(k.lastJob())
+	case 1:
+		// no target open at first (everything skipped), then one, the retry BEFORE the compaction (the
+		// job really reads the level-0 tables), more flushes, compaction, then the last target
+		k.setupFlushes(rng, 2)
+		k.exec(k.rollupJobOp())
+		k.openTarget(first)
+		k.exec(k.rollupJobOp())
+		k.setupFlushes(rng, 1)
+		k.exec(k.rollupJobOp())
+		compactAll()
+		k.exec(k.rollupJobOp())
+		k.openTarget(second)
+		k.exec(k.rollupJobOp())
+		compactAll()
+	case 2:
+		// the rollup job runs while a level-0 compaction of the same family is parked after picking its
+		// inputs, and while a deleteObsoleteFiles is parked between the active-version scan and the
+		// rollup scan; both then finish (with their cleanups)
+		k.openTarget(first)
+		k.setupFlushes(rng, 2+d%2)
+		k.exec("spawn compact")
+		cj := k.lastJob()
+		k.exec("run " + cj)
+		k.exec("spawn delobs")
+		dj := k.lastJob()
+		for i := 0; i < 8 && k.broken == ""; i++ {
+			if t := k.thrByName(dj); t == nil || t.done || t.at == "doActived" {
+				break
+			}
+			k.exec("run " + dj)
+		}
+		k.exec(k.rollupJobOp())
+		k.finish(dj)
+		k.finish(cj)
+		k.exec("spawn delobs")
+		k.finish(k.lastJob())
+		k.openTarget(second)
+		k.exec(k.rollupJobOp())
+	}
 	k.drain(rng)
 }
 
@@ -2107,6 +2329,9 @@ func (k *kase) newPayload(rng *rand.Rand) string {
 }
 
 func (k *kase) random(rng *rand.Rand, steps int) {
+	if k.nTargets > 0 && rng.Intn(2) == 0 {
+		k.openTarget([]int{5, 60}[rng.Intn(k.nTargets)])
+	}
 	openReaders := func() []int {
 		var rs []int
 		for id, t := range k.readers {
@@ -2183,8 +2408,11 @@ func (k *kase) random(rng *rand.Rand, steps int) {
 				continue
 			}
 		}
+		if k.nTargets > 0 && rng.Intn(30) == 0 {
+			k.openTarget([]int{5, 60}[rng.Intn(k.nTargets)])
+		}
 		if !k.anyBlocked() && k.lockFree() && rng.Intn(25) == 0 {
-			k.exec("rollupjob")
+			k.exec(k.rollupJobOp())
 			continue
 		}
 		if !k.anyBlocked() && k.lockFree() && rng.Intn(12) == 0 {
@@ -2364,7 +2592,7 @@ func (area) Run(c *core.Ctx) error {
 	// Does the Release race exist in this tree? An unrecorded run of the witness decides whether
 	// random schedules may deschedule a thread between a Dec that returned 0 and its removeVersion.
 	probe := &kase{s: s}
-	if err := probe.begin(0, 2, false); err != nil {
+	if err := probe.begin(0, 2, 0); err != nil {
 		probe.close()
 		return err
 	}
@@ -2382,9 +2610,19 @@ func (area) Run(c *core.Ctx) error {
 		if i >= nDirected-nDirectNR && i < nDirected {
 			threshold = 1
 		}
+		nTargets := -1
 		if i >= nDirected+nDirectX {
 			threshold = 1 + rng.Intn(3)
-			rollupOn = rng.Intn(3) == 0
+			switch rng.Intn(6) {
+			case 0:
+				nTargets = 1
+			case 1:
+				nTargets = 2
+			default:
+				nTargets = 0
+			}
+		} else if i >= nDirected+nDirect3C+nDirectOF {
+			nTargets = 2
 		} else if i >= nDirected {
 			rollupOn = true
 		} else if i >= nWitness+nDirectDO+nDirectCC+nDirectAL+nDirectRU {
@@ -2398,7 +2636,13 @@ func (area) Run(c *core.Ctx) error {
 		} else if i >= nWitness {
 			rollupOn = i%2 == 0
 		}
-		if err := k.begin(i, threshold, rollupOn); err != nil {
+		if nTargets < 0 {
+			nTargets = 0
+			if rollupOn {
+				nTargets = 1
+			}
+		}
+		if err := k.begin(i, threshold, nTargets); err != nil {
 			k.close()
 			return err
 		}
@@ -2451,11 +2695,16 @@ func (area) Run(c *core.Ctx) error {
 			k.direct3C(rng, i-nDirected)
 			c.NonTrivial()
 			c.Branch("directed:three-committers")
-		} else if i < nDirected+nDirectX {
+		} else if i < nDirected+nDirect3C+nDirectOF {
 			k.racy = racy
 			k.directOther(rng, i-nDirected-nDirect3C)
 			c.NonTrivial()
 			c.Branch("directed:other-family")
+		} else if i < nDirected+nDirectX {
+			k.racy = racy
+			k.directRollup2(rng, i-nDirected-nDirect3C-nDirectOF)
+			c.NonTrivial()
+			c.Branch("directed:two-rollup-targets-one-missing")
 		} else {
 			k.racy = racy
 			k.sparse = rng.Intn(3) == 0
